@@ -19,6 +19,12 @@ CAUGHT = {
     "C05-3": {"C05": "violation"}, "C06-3": {"C06": "violation"}, "C09-3": {"C09": "violation", "C01": "violation"},
     "C10-3": {"C10": "violation"}, "C15-3": {"C15": "violation", "C11": "not reported"}, "C16-3": {"C16": "violation"},
     "C18-3": {"C18": "violation"}, "C19-3": {"C19": "violation", "C04": "violation"},
+    "C01-4": {"C01": "violation"}, "C02-4": {"C02": "violation"}, "C03-4": {"C03": "violation"}, "C04-4": {"C04": "violation", "C07": "violation"},
+    "C05-4": {"C05": "violation"}, "C06-4": {"C06": "violation"}, "C07-4": {"C07": "violation"}, "C08-4": {"C08": "violation"},
+    "C09-4": {"C09": "violation", "C01": "violation"}, "C10-4": {"C10": "violation"}, "C11-4": {"C11": "violation", "C15": "violation"},
+    "C12-4": {"C12": "violation"}, "C13-4": {"C13": "violation"}, "C14-4": {"C14": "violation"}, "C15-4": {"C15": "violation"},
+    "C16-4": {"C16": "violation"}, "C17-4": {"C17": "violation"}, "C18-4": {"C18": "violation"}, "C19-4": {"C19": "violation"},
+    "C20-4": {"C20": "violation"},
 }
 for d in sorted(os.listdir(root)):
     p = os.path.join(root, d)
